@@ -415,6 +415,15 @@ class ConvGeneralDilatedPlugin(PrimitiveLeafPlugin):
         rhs_shape = tuple(getattr(rhs_var.aval, "shape", ()))
         out_shape = tuple(getattr(out_var.aval, "shape", ()))
 
+        for operand_var in (lhs_var, rhs_var):
+            operand_dtype = np.dtype(getattr(operand_var.aval, "dtype", np.float32))
+            if not jax.numpy.issubdtype(operand_dtype, np.inexact):  # bfloat16 included
+                # ONNX Conv / ConvTranspose are defined for floating tensors only
+                raise TypeError(
+                    f"conv_general_dilated on '{operand_dtype}' operands is not supported; "
+                    "cast the operands to a floating dtype"
+                )
+
         if int(params.get("batch_group_count", 1) or 1) != 1:
             raise NotImplementedError(
                 "conv_general_dilated with batch_group_count != 1 is not supported"
